@@ -14,6 +14,10 @@
    a map literal with a repeated constant key; mage's parser would keep the last entry while the
    template data of Bridge_C06_C04.info_of lists every entry - the one place where the
    representations do not line up, hence the hypothesis).
+   aliases_nonempty tags = no tag carries the empty string as alias (needed since commit 4a102aa, where bare-tag
+   imports are de-duplicated by path: an aliased import with alias "" would be a second bare import of its
+   package for Dupes but a separate entry of cimports_of); it holds for the tags of real import specs:
+   Compose_tags_aliases_nonempty.
    exposes world def_of dir lpk tags w pk d t  ("the word w names declaration d of package pk; t is
    its template target"), three constructors:
      ex_own       In (d,f) (C.targets lpk), lower w = lower (decl_name d),               t = target_of (def_of "") f, pk = lpk
@@ -41,11 +45,14 @@ Theorem Compose_dupes_of_aliases : forall world def_of dir lpk tags,
 Proof. exact aliases_commute. Qed.
 
 (* setImports' (path, alias) de-duplication has nothing left to do on [dupes_of]: its imports are what the check sees *)
-Theorem Compose_dupes_of_imports_effective : forall world dir lpk tags,
+Theorem Compose_tags_aliases_nonempty : forall files, aliases_nonempty (IF.tags files).
+Proof. exact tags_aliases_nonempty. Qed.
+
+Theorem Compose_dupes_of_imports_effective : forall world dir lpk tags, aliases_nonempty tags ->
   Permutation (U.effective_imports (dupes_of world dir lpk tags)) (U.imports (dupes_of world dir lpk tags)).
 Proof. exact effective_imports_dupes. Qed.
 
-Theorem Compose_dupes_of_runnable_names : forall world def_of dir lpk tags, alias_keys_distinct lpk ->
+Theorem Compose_dupes_of_runnable_names : forall world def_of dir lpk tags, aliases_nonempty tags -> alias_keys_distinct lpk ->
   Permutation (map D.tname (DS.targets (info_with_imports world def_of dir lpk tags)) ++
                map fst (D.aliases (info_with_imports world def_of dir lpk tags)))
               (U.runnable_names (dupes_of world dir lpk tags)).
@@ -54,14 +61,14 @@ Proof. exact names_are_runnable_names. Qed.
 (* (2) acceptance by mage's duplicate check (Model/Dupes.v, the current code) discharges C04's premise
    for the template data built from declarations and resolved imports *)
 Theorem Compose_accepted_no_collision_decls : forall world def_of dir lpk tags,
-  alias_keys_distinct lpk ->
+  aliases_nonempty tags -> alias_keys_distinct lpk ->
   U.mage_accepts (dupes_of world dir lpk tags) = true ->
   DS.no_collision (info_with_imports world def_of dir lpk tags).
 Proof. exact accepted_no_collision_decls. Qed.
 
 (* ... and it is exactly that premise (function names non-empty) *)
 Theorem Compose_no_collision_decls_accepted : forall world def_of dir lpk tags,
-  alias_keys_distinct lpk -> U.wf_pkg (dupes_of world dir lpk tags) ->
+  aliases_nonempty tags -> alias_keys_distinct lpk -> U.wf_pkg (dupes_of world dir lpk tags) ->
   DS.no_collision (info_with_imports world def_of dir lpk tags) ->
   U.mage_accepts (dupes_of world dir lpk tags) = true.
 Proof. exact no_collision_decls_accepted. Qed.
@@ -78,7 +85,7 @@ Proof. exact exposed_resolves. Qed.
    exactly the declaration it names, with as many values as declared and the k-th value the k-th word
    converted at the k-th DECLARED type *)
 Theorem Compose_C07_C19_C06_C04_runs : forall world def_of dir lpk tags conv fails env,
-  alias_keys_distinct lpk ->
+  aliases_nonempty tags -> alias_keys_distinct lpk ->
   U.mage_accepts (dupes_of world dir lpk tags) = true ->
   forall w pk d t args rest,
   exposes world def_of dir lpk tags w pk d t ->
@@ -93,7 +100,7 @@ Proof. exact runs. Qed.
 
 (* the three cases of [exposes] spelled out *)
 Theorem Compose_own_target_runs : forall world def_of dir lpk tags conv fails env,
-  alias_keys_distinct lpk -> U.mage_accepts (dupes_of world dir lpk tags) = true ->
+  aliases_nonempty tags -> alias_keys_distinct lpk -> U.mage_accepts (dupes_of world dir lpk tags) = true ->
   forall w d f args rest, In (d, f) (C.targets lpk) -> D.lower w = D.lower (decl_name d) ->
   List.length args = List.length (nonctx_types d) ->
   (forall k ty x, nth_error (nonctx_types d) k = Some (pty_back ty) -> nth_error args k = Some x -> D.convert conv ty x <> None) ->
@@ -104,13 +111,13 @@ Theorem Compose_own_target_runs : forall world def_of dir lpk tags conv fails en
     (forall k ty x, nth_error (nonctx_types d) k = Some (pty_back ty) -> nth_error args k = Some x ->
                     nth_error vs k = D.convert conv ty x).
 Proof.
-  exact (fun world def_of dir lpk tags conv fails env AK ACC w d f args rest H L =>
-           runs world def_of dir lpk tags conv fails env AK ACC w lpk d _ args rest
+  exact (fun world def_of dir lpk tags conv fails env NE AK ACC w d f args rest H L =>
+           runs world def_of dir lpk tags conv fails env NE AK ACC w lpk d _ args rest
                 (ex_own world def_of dir lpk tags w d f H L)).
 Qed.
 
 Theorem Compose_alias_runs : forall world def_of dir lpk tags conv fails env,
-  alias_keys_distinct lpk -> U.mage_accepts (dupes_of world dir lpk tags) = true ->
+  aliases_nonempty tags -> alias_keys_distinct lpk -> U.mage_accepts (dupes_of world dir lpk tags) = true ->
   forall w d f k g args rest, In (d, f) (C.targets lpk) -> In (k, g) (alias_list lpk) ->
   C.targetName g = C.targetName f -> D.lower w = D.lower k ->
   List.length args = List.length (nonctx_types d) ->
@@ -122,13 +129,13 @@ Theorem Compose_alias_runs : forall world def_of dir lpk tags conv fails env,
     (forall j ty x, nth_error (nonctx_types d) j = Some (pty_back ty) -> nth_error args j = Some x ->
                     nth_error vs j = D.convert conv ty x).
 Proof.
-  exact (fun world def_of dir lpk tags conv fails env AK ACC w d f k g args rest H A E L =>
-           runs world def_of dir lpk tags conv fails env AK ACC w lpk d _ args rest
+  exact (fun world def_of dir lpk tags conv fails env NE AK ACC w d f k g args rest H A E L =>
+           runs world def_of dir lpk tags conv fails env NE AK ACC w lpk d _ args rest
                 (ex_alias world def_of dir lpk tags w d f k g H A E L)).
 Qed.
 
 Theorem Compose_imported_name_runs : forall world def_of dir lpk tags conv fails env,
-  alias_keys_distinct lpk -> U.mage_accepts (dupes_of world dir lpk tags) = true ->
+  aliases_nonempty tags -> alias_keys_distinct lpk -> U.mage_accepts (dupes_of world dir lpk tags) = true ->
   forall w p t n pk d f args rest, In (p, Some t) tags -> world dir p = Some (n, pk) -> In (d, f) (C.targets pk) ->
   D.lower w = D.lower (IF.prefixed (IF.alias_str t) (decl_name d)) ->
   List.length args = List.length (nonctx_types d) ->
@@ -140,14 +147,14 @@ Theorem Compose_imported_name_runs : forall world def_of dir lpk tags conv fails
     (forall k ty x, nth_error (nonctx_types d) k = Some (pty_back ty) -> nth_error args k = Some x ->
                     nth_error vs k = D.convert conv ty x).
 Proof.
-  exact (fun world def_of dir lpk tags conv fails env AK ACC w p t n pk d f args rest Hi W H L =>
-           runs world def_of dir lpk tags conv fails env AK ACC w pk d _ args rest
+  exact (fun world def_of dir lpk tags conv fails env NE AK ACC w p t n pk d f args rest Hi W H L =>
+           runs world def_of dir lpk tags conv fails env NE AK ACC w pk d _ args rest
                 (ex_imported world def_of dir lpk tags w p t n pk d f Hi W H L)).
 Qed.
 
 (* the letter case of the word at the name position does not matter, whatever follows *)
 Theorem Compose_C07_C19_any_case : forall world def_of dir lpk tags conv fails env,
-  alias_keys_distinct lpk -> U.mage_accepts (dupes_of world dir lpk tags) = true ->
+  aliases_nonempty tags -> alias_keys_distinct lpk -> U.mage_accepts (dupes_of world dir lpk tags) = true ->
   forall w w' tail, D.lower w = D.lower w' ->
   D.dispatch conv fails (info_with_imports world def_of dir lpk tags) env (w :: tail) =
   D.dispatch conv fails (info_with_imports world def_of dir lpk tags) env (w' :: tail).
@@ -155,6 +162,7 @@ Proof. exact runs_any_case. Qed.
 
 Print Assumptions Compose_dupes_of_target_names.
 Print Assumptions Compose_dupes_of_aliases.
+Print Assumptions Compose_tags_aliases_nonempty.
 Print Assumptions Compose_dupes_of_imports_effective.
 Print Assumptions Compose_dupes_of_runnable_names.
 Print Assumptions Compose_accepted_no_collision_decls.
